@@ -19,7 +19,23 @@ func VerifC01_EqForm() {
 	flag := opt.Bool("flag", false)
 	opt.NewCommand("cmd", "")
 	vPhase("run")
-	remaining, err := opt.Parse([]string{"--name=" + v})
+	// thorough tier: arbitrary surrounding tokens (a positional before, a sibling option after)
+	args := []string{"--name=" + v}
+	var around []string
+	if vThorough() {
+		switch vInt("around", 0, 3) {
+		case 1:
+			p := positional("before", "cmd")
+			args, around = []string{p, "--name=" + v}, []string{p}
+		case 2:
+			args = []string{"--name=" + v, "--flag"}
+		case 3:
+			p := positional("before", "cmd")
+			q := positional("after", "cmd")
+			args, around = []string{p, "--name=" + v, q}, []string{p, q}
+		}
+	}
+	remaining, err := opt.Parse(args)
 	vObserve("err", err)
 	vObserve("remaining", remaining)
 	s.observe("value")
@@ -27,7 +43,7 @@ func VerifC01_EqForm() {
 		vAssert("valid/no-error", err == nil)
 		s.assertHolds("valid", opt, "name", v)
 		vAssert("valid/called", opt.Called("name"))
-		vAssert("valid/remaining-empty", len(remaining) == 0)
+		vAssert("valid/remaining-empty", eqStrs(remaining, around))
 		vReach("stored")
 	} else {
 		vAssert("invalid/error", err != nil)
@@ -35,7 +51,11 @@ func VerifC01_EqForm() {
 		vReach("rejected")
 	}
 	vAssert("sibling-string-untouched", *other == "dflt")
-	vAssert("sibling-flag-untouched", !*flag)
+	if len(args) == 2 && args[1] == "--flag" {
+		vAssert("sibling-flag-set", *flag || err != nil)
+	} else {
+		vAssert("sibling-flag-untouched", !*flag)
+	}
 	vAssert("sibling-not-called", !opt.Called("other"))
 }
 
